@@ -105,7 +105,34 @@ fn dead_positions() -> Vec<(&'static str, &'static str)> {
         ("unused-in-branch-merge", "S\nmake zz_u get 0\nif to say (true) start\nzz_u get E\nend\nif not so start\nzz_u get 2\nend\nD"),
         ("before-return-in-function", "S\ndo zz_w() start\nmake zz_u get E\nreturn 0\nmake zz_d get 1\nend\nshout(zz_w())\nD"),
         ("short-circuited-away", "S\nmake zz_u get false and [E].len() pass 0\nD"),
+        ("write-only-variable", "S\nmake zz_u get 0\nzz_u get E\nD"),
+        ("write-only-variable-in-loop", "S\nmake zz_u get 0\nmake zz_i get 0\njasi (zz_i small pass 2) start\nzz_i get zz_i add 1\nzz_u get E\nend\nD"),
+        ("write-only-variable-twice", "S\nmake zz_u get 0\nzz_u get 1\nzz_u get E\nzz_u get 2\nD"),
     ]
+}
+
+/// Stores that ARE read, but only in a later basic block, in functions with `pad` other locals in
+/// front of them (the analyses keep per-function bit sets: 64 locals fill one word). `P` = the
+/// padding declarations.
+fn live_store_programs() -> Vec<(String, String)> {
+    let shapes: [(&str, &str); 8] = [
+        ("after-if", "P\nmake zz_u get 0\nif to say (true) start\nzz_u get 7\nend\nshout(zz_u)"),
+        ("after-if-else", "P\nmake zz_u get 0\nmake zz_f get true\nif to say (zz_f) start\nzz_u get 7\nend\nif not so start\nzz_u get 8\nend\nshout(zz_u)"),
+        ("after-loop", "P\nmake zz_u get 0\nmake zz_i get 0\njasi (zz_i small pass 3) start\nzz_i get zz_i add 1\nzz_u get zz_i times 2\nend\nshout(zz_u)"),
+        ("next-iteration", "P\nmake zz_u get 0\nmake zz_i get 0\njasi (zz_i small pass 3) start\nzz_i get zz_i add 1\nshout(zz_u)\nzz_u get zz_i times 2\nend"),
+        ("two-variables", "P\nmake zz_u get 0\nmake zz_w get false\nif to say (true) start\nzz_u get 7\nzz_w get true\nend\nshout(zz_u)\nshout(zz_w)"),
+        ("in-function", "do zz_g() start\nP\nmake zz_u get 0\nif to say (true) start\nzz_u get 7\nend\nreturn zz_u\nend\nshout(zz_g())"),
+        ("captured-by-callee", "P\nmake zz_u get 0\ndo zz_r() start\nreturn zz_u\nend\nif to say (true) start\nzz_u get 7\nend\nshout(zz_r())"),
+        ("nested-blocks", "P\nmake zz_u get 0\nstart\nstart\nif to say (true) start\nzz_u get 7\nend\nend\nend\nshout(zz_u)"),
+    ];
+    let mut out = Vec::new();
+    for pad in [0usize, 1, 31, 32, 33, 62, 63, 64, 65, 66, 126, 127, 128, 129, 191, 192, 193, 300] {
+        let padding: String = (0..pad).map(|i| format!("make zz_p{i} get {i}\n")).collect();
+        for (name, t) in shapes {
+            out.push((format!("{name}|locals-in-front={pad}"), t.replace("P\n", &padding).replace('P', "") + "\n"));
+        }
+    }
+    out
 }
 
 const DUMP: &str = "shout(\"after\")";
@@ -123,10 +150,41 @@ fn state_dump(setup: &str) -> String {
     s
 }
 
+fn run_live_stores(ctx: &mut Ctx, first: u64) {
+    let progs = live_store_programs();
+    ctx.out.extra.insert("live_store_programs".into(), json!(progs.len()));
+    let idxs: Vec<u64> = ctx.indices().filter(|i| *i >= first && ((*i - first) as usize) < progs.len()).collect();
+    for idx in idxs {
+        ctx.out.begin(idx);
+        ctx.out.evaluations += 1;
+        let (name, src) = &progs[(idx - first) as usize];
+        let replay = json!({"engine": "prune", "stage": "product", "src": src, "live_store": name});
+        let run = |plan: bool| util::guarded(|| pipeline::run_source(src, RunCfg { plan, trace: true, ..RunCfg::default() }));
+        match (run(true), run(false)) {
+            (Ok(with), Ok(without)) => {
+                if !with.accepted {
+                    ctx.out.inconclusive(idx, "live-store program rejected", json!({"name": name}));
+                } else if with.output != without.output || with.ending != without.ending {
+                    let shape = name.split('|').next().unwrap_or("");
+                    ctx.out.fail(idx, &format!("product|live-store-pruned|{shape}"), json!({"program": name, "pruned": with.output, "full": without.output, "pruned_ending": with.ending, "full_ending": without.ending}), replay);
+                } else {
+                    ctx.out.tag("product.live-store.same");
+                    ctx.out.nontrivial(util::hash64(src.as_bytes()));
+                }
+            }
+            (Err((msg, loc)), _) | (_, Err((msg, loc))) => {
+                let sig = format!("panic|{}|{}", util::normalise_msg(&msg), util::panic_site(&loc));
+                ctx.out.fail(idx, &sig, json!({"panic": msg, "at": loc, "program": name}), replay);
+            }
+        }
+    }
+}
+
 fn run_product(ctx: &mut Ctx) {
     let exprs = observable_exprs();
     let positions = dead_positions();
     let total = (exprs.len() * positions.len()) as u64;
+    run_live_stores(ctx, total);
     ctx.out.extra.insert("product_size".into(), json!(total));
     ctx.out.extra.insert("product_operations".into(), json!(exprs.len()));
     ctx.out.extra.insert("product_positions".into(), json!(positions.len()));
